@@ -589,9 +589,10 @@ def op_fn_reduce_dim(rng, f):
     for k, v in f.variables.items():
         if ('_bounds' in k or '_bnds' in k) and len(v.dimensions) > 0:
             vertex.add(v.dimensions[-1])
-            if len(v.dimensions) != 2:
+            if len(v.dimensions) != 2 or v.shape[-1] < 2:
                 # reduce_dim's corner handling is written for (dim, nv)
-                # bounds variables
+                # bounds variables with at least two corners (an earlier
+                # step of the program may have reduced them away)
                 return None
     dims = [k for k, d in f.dimensions.items() if len(d) > 0 and
             k in dims_used(f) and k not in vertex]
